@@ -38,6 +38,7 @@ func (e *Emitter) Indent(n int32) {
 }
 
 func (e *Emitter) Comment(s string) {
+	s = sanitizeComment(s)
 	if s != "" {
 		limit := e.maxLineLength - e.indent
 		if limit < 0 {
@@ -54,7 +55,7 @@ func (e *Emitter) Comment(s string) {
 }
 
 func (e *Emitter) Commentf(s string, args ...interface{}) {
-	s = fmt.Sprintf(s, args...)
+	s = sanitizeComment(fmt.Sprintf(s, args...))
 	if s != "" {
 		limit := e.maxLineLength - e.indent
 		if limit < 0 {
@@ -68,6 +69,21 @@ func (e *Emitter) Commentf(s string, args ...interface{}) {
 			e.Printlnf("// %s", line)
 		}
 	}
+}
+
+// sanitizeComment makes arbitrary text safe to emit as Go line comments: CR and
+// CRLF line breaks are normalized to LF, and characters that the Go scanner
+// rejects even inside comments (NUL, byte order mark) are dropped.
+func sanitizeComment(s string) string {
+	s = strings.NewReplacer("\r\n", "\n", "\r", "\n").Replace(s)
+
+	return strings.Map(func(r rune) rune {
+		if r == 0 || r == '\uFEFF' {
+			return -1
+		}
+
+		return r
+	}, s)
 }
 
 func (e *Emitter) Printf(format string, args ...interface{}) {
